@@ -90,7 +90,10 @@ def to_xarray(u: Unit):
                 u.oblige(p, f"to_xarray.empty_placeholder[{bucket}]", bool(len(evs) == 1 and not evs[0][2] and not evs[0][3]), {}, REC_REPLAY)
                 continue
             n_full += 1
-            main = [e for e in evs if e[3].get("dims") is not None and isinstance(e[3]["dims"], VRef)]
+            def dims_seq(e):          # dims given as a list or a tuple of names (a plain string is a coordinate array's single dimension)
+                d_ = e[3].get("dims")
+                return p.ex.try_list(d_) if d_ is not None and not isinstance(d_, VStr) else None
+            main = [e for e in evs if dims_seq(e) is not None]
             ok = len(main) == 1 and len(main[0][2]) == 1 and p.ex.is_arr(main[0][2][0])
             if not ok:
                 u.oblige(p, f"to_xarray.values_coords[{bucket}]", False, {}, REC_REPLAY)
